@@ -96,14 +96,14 @@ def Obj.toArgs (o : Obj) : List Arg :=
              optArg o.pre, optArg o.post, optArg o.dev, optArg o.loc]
 
 def slots : Cls → List Str
-  | .base => Gen.ver_base_slots.map String.toList
-  | .sem => Gen.ver_sem_slots.map String.toList
-  | .pkg => Gen.ver_pkg_slots.map String.toList
+  | .base => Gen.ver_base_slots
+  | .sem => Gen.ver_sem_slots
+  | .pkg => Gen.ver_pkg_slots
 
 def validParts : Cls → List Str
-  | .base => Gen.ver_base_parts.map String.toList
-  | .sem => Gen.ver_sem_parts.map String.toList
-  | .pkg => Gen.ver_pkg_parts.map String.toList
+  | .base => Gen.ver_base_parts
+  | .sem => Gen.ver_sem_parts
+  | .pkg => Gen.ver_pkg_parts
 
 /-- `cls(*args)`: positional construction; too many arguments is a TypeError -/
 def construct (c : Cls) (args : List Arg) : R Obj :=
@@ -135,7 +135,7 @@ def Obj.toKw (o : Obj) : List (Str × Arg) := (slots o.cls).zip o.toArgs
 
 -- regexes ------------------------------------------------------------------------------------
 
-def reOf (s : String) : Option RE := parseRegexVerbose s.toList
+def reOf (s : Str) : Option RE := parseRegexVerbose s
 
 def clsRegex (c : Cls) (optional : Bool) : Option RE :=
   match c with
@@ -194,13 +194,13 @@ def increment (s : Str) : Str :=
       let next := showNat (v + 1)
       s.take (Nat.max (en - next.length) st) ++ next ++ s.drop en
 
-def letterRe : Option RE := parseRegex Gen.extract_letter_regex.toList
-def implicitRe : Option RE := parseRegex Gen.extract_letter_implicit_regex.toList
+def letterRe : Option RE := parseRegex Gen.extract_letter_regex
+def implicitRe : Option RE := parseRegex Gen.extract_letter_implicit_regex
 
-def lookupSpelling (w : Str) : List (List String) → Option Str
+def lookupSpelling (w : Str) : List (List Str) → Option Str
   | [] => Option.none
   | row :: rest =>
-    if (row.map String.toList).contains w then (row.getLast?.map String.toList) else lookupSpelling w rest
+    if row.contains w then row.getLast? else lookupSpelling w rest
 
 /-- `BaseVersion._extract_letter(letter)` (force_raise = False) -/
 def extractLetter (letter : Str) : R (Str × Int) :=
@@ -220,15 +220,13 @@ def extractLetter (letter : Str) : R (Str × Int) :=
       | Option.none => .ok (letter, 0)
   | _, _ => .error .reError
 
-def letterPV (p : Str × Int) : PV := .tup (.cons (.str p.1) (.cons (.int p.2) .nil))
-
 def truthyStr : Option Str → Bool
   | some s => !s.isEmpty
   | Option.none => false
 
 def isDigitStr (s : Str) : Bool := !s.isEmpty && s.all isDigitU
 
-def splitRe : Option RE := parseRegex Gen.extract_local_split.toList
+def splitRe : Option RE := parseRegex Gen.extract_local_split
 
 /-- `re.compile(split).split(local)` for a one-character class -/
 def splitLocal (s : Str) : R (List Str) :=
@@ -236,34 +234,57 @@ def splitLocal (s : Str) : R (List Str) :=
   | some (.cls items neg) => .ok (splitOnChars (inCls items neg) [] s)
   | _ => .error .reError
 
-/-- `VersionPackage.__extract_local` + the wrapping of `__extract_tuple` -/
-def localPV (l : Str) : R PV := do
+/-- `VersionPackage.__extract_local` + the wrapping of `__extract_tuple`:
+    `(i, "")` for a numeric part, `(NegInf, part.lower())` otherwise -/
+def localKey (l : Str) : R (List (Sent Int × Str)) := do
   let parts ← splitLocal l
-  let items ← parts.mapM fun p =>
-    if isDigitStr p then (pyInt p).map fun i => PV.tup (.cons (.int i) (.cons (.str []) .nil))
-    else pure (PV.tup (.cons .ninf (.cons (.str (lower p)) .nil)))
-  pure (.tup (PVs.ofList items))
+  parts.mapM fun p =>
+    if isDigitStr p then (pyInt p).map fun i => (Sent.val i, ([] : Str))
+    else pure (Sent.ninf, lower p)
 
-def releasePV (l : List Nat) : PV := .tup (PVs.ofList ((necessaryRelease l).map fun (n : Nat) => PV.int (n : Int)))
+abbrev LetterK := Sent (Str × Int)
+abbrev BaseKey := Nat × (Nat × Nat)
+abbrev SemKey := List Nat × LetterK
+abbrev PkgKey := Nat × (List Nat × (LetterK × (LetterK × (LetterK × Sent (List (Sent Int × Str))))))
 
-/-- the tuple each class compares by: `to_tuple()[:3]` / `__extract_tuple()` -/
+/-- `to_tuple()[:3]` of BaseVersion -/
+def baseKey (o : Obj) : BaseKey := (o.major, o.minor, o.patch)
+
+/-- `VersionSemver.__extract_tuple` -/
+def semKey (o : Obj) : R SemKey := do
+  let pre ← if truthyStr o.pre then (extractLetter (o.pre.getD [])).map Sent.val else pure Sent.inf
+  pure (necessaryRelease [o.major, o.minor, o.patch], pre)
+
+/-- `VersionPackage.__extract_tuple` -/
+def pkgKey (o : Obj) : R PkgKey := do
+  let pre ←
+    if o.pre.isNone && o.post.isNone && o.dev.isSome then pure Sent.ninf
+    else if o.pre.isNone then pure Sent.inf
+    else (extractLetter (o.pre.getD [])).map Sent.val
+  let post ← if truthyStr o.post then (extractLetter (o.post.getD [])).map Sent.val else pure Sent.ninf
+  let dev ← if truthyStr o.dev then (extractLetter (o.dev.getD [])).map Sent.val else pure Sent.inf
+  let loc ← match o.loc with
+    | Option.none => pure Sent.ninf
+    | some l => (localKey l).map Sent.val
+  pure (o.epoch, necessaryRelease [o.major, o.minor, o.patch], pre, post, dev, loc)
+
+def encBaseKey (k : BaseKey) : PV :=
+  .tup (.cons (.int k.1) (.cons (.int k.2.1) (.cons (.int k.2.2) .nil)))
+
+def encSemKey (k : SemKey) : PV :=
+  .tup (.cons (encRelease k.1) (.cons (Sent.enc encLetter k.2) .nil))
+
+def encPkgKey (k : PkgKey) : PV :=
+  .tup (.cons (.int k.1) (.cons (encRelease k.2.1) (.cons (Sent.enc encLetter k.2.2.1)
+    (.cons (Sent.enc encLetter k.2.2.2.1) (.cons (Sent.enc encLetter k.2.2.2.2.1)
+      (.cons (Sent.enc encLocal k.2.2.2.2.2) .nil))))))
+
+/-- the Python tuple each class compares by: `to_tuple()[:3]` / `__extract_tuple()` -/
 def key (o : Obj) : R PV :=
   match o.cls with
-  | .base => .ok (.tup (PVs.ofList [.int o.major, .int o.minor, .int o.patch]))
-  | .sem => do
-    let pre ← if truthyStr o.pre then (extractLetter (o.pre.getD [])).map letterPV else pure PV.inf
-    pure (.tup (PVs.ofList [releasePV [o.major, o.minor, o.patch], pre]))
-  | .pkg => do
-    let pre ←
-      if o.pre.isNone && o.post.isNone && o.dev.isSome then pure PV.ninf
-      else if o.pre.isNone then pure PV.inf
-      else (extractLetter (o.pre.getD [])).map letterPV
-    let post ← if truthyStr o.post then (extractLetter (o.post.getD [])).map letterPV else pure PV.ninf
-    let dev ← if truthyStr o.dev then (extractLetter (o.dev.getD [])).map letterPV else pure PV.inf
-    let loc ← match o.loc with
-      | Option.none => pure PV.ninf
-      | some l => localPV l
-    pure (.tup (PVs.ofList [.int o.epoch, releasePV [o.major, o.minor, o.patch], pre, post, dev, loc]))
+  | .base => .ok (encBaseKey (baseKey o))
+  | .sem => (semKey o).map encSemKey
+  | .pkg => (pkgKey o).map encPkgKey
 
 /-- what `__hash__` feeds to `hash` -/
 def hashRepr (o : Obj) : R PV :=
@@ -288,7 +309,7 @@ def coerce (c : Cls) : Other → R Obj
   | .bad => .error .pyType
 
 /-- `self.compare(other)` -/
-def compare (a : Obj) (other : Other) : R Int := do
+def vcompare (a : Obj) (other : Other) : R Int := do
   let b ← coerce a.cls other
   let ka ← key a
   let kb ← key b
@@ -306,7 +327,7 @@ def richCmp (op : Op) (a : Obj) (other : Other) : R Bool :=
     | .eq => .ok false
     | .ne => .ok true
     | _ => .error .pyType
-  | _ => (compare a other).map fun (c : Int) =>
+  | _ => (vcompare a other).map fun (c : Int) =>
     match op with
     | .eq => c == 0 | .ne => c != 0 | .lt => c < 0 | .le => c ≤ 0 | .gt => c > 0 | .ge => c ≥ 0
 
@@ -438,17 +459,17 @@ def setattr (o : Obj) (_name : Str) : R Obj × Obj := (.error .pyAttr, o)
 /-- `__validate_expr_match(expr)` : (operator, version text) -/
 def validateExprMatch (expr : Str) : R (Str × Str) :=
   let p2 := expr.take 2
-  if (Gen.match_ops2.map String.toList).contains p2 then .ok (p2, expr.drop 2)
+  if Gen.match_ops2.contains p2 then .ok (p2, expr.drop 2)
   else
     match p2 with
     | c :: _ =>
-      if (Gen.match_ops1.map String.toList).contains [c] then .ok ([c], expr.drop 1)
-      else if Gen.match_bare_first.toList.contains c then .ok ("==".toList, expr)
+      if Gen.match_ops1.contains [c] then .ok ([c], expr.drop 1)
+      else if Gen.match_bare_first.contains c then .ok ("==".toList, expr)
       else .error .pyValue
     | [] => .error .pyValue
 
 def possibility (op : Str) : Option (List Int) :=
-  (Gen.match_possibilities.find? fun p => p.1.toList == op).map (·.2)
+  (Gen.match_possibilities.find? fun p => p.1 == op).map (·.2)
 
 def mkPlain (c : Cls) (major minor patch : Nat) : Obj := { cls := c, major := major, minor := minor, patch := patch }
 
@@ -458,15 +479,15 @@ def matchExpr (v : Obj) (expr : Str) : R Bool := do
   let poss ← match possibility op with
     | some p => pure p
     | Option.none => .error .pyKey
-  let cmpRes ← compare v (.str m)
+  let cmpRes ← vcompare v (.str m)
   let w ← parse v.cls m
-  if (Gen.match_tilde_ops.map String.toList).contains op then
+  if Gen.match_tilde_ops.contains op then
     let pair : Obj :=
       if w.patch == 0 && w.minor == 0 then mkPlain v.cls (w.major + 1) 0 0
       else if w.patch == 0 && w.minor > 0 then mkPlain v.cls (w.major + 1) 0 0
       else if w.patch > 0 then mkPlain v.cls w.major (w.minor + 1) 0
       else mkPlain v.cls 0 0 0
-    let c2 ← compare v (.obj pair)
+    let c2 ← vcompare v (.obj pair)
     pure (poss.contains cmpRes && c2 < 0)
   else if op == "^".toList then
     let pair : Obj :=
@@ -474,7 +495,7 @@ def matchExpr (v : Obj) (expr : Str) : R Bool := do
       else if w.minor > 0 then mkPlain v.cls 0 (w.minor + 1) 0
       else if w.patch > 0 then mkPlain v.cls 0 0 (w.patch + 1)
       else mkPlain v.cls 0 0 0
-    let c2 ← compare v (.obj pair)
+    let c2 ← vcompare v (.obj pair)
     pure (poss.contains cmpRes && c2 < 0)
   else pure (poss.contains cmpRes)
 
